@@ -175,6 +175,12 @@ PROPS.update({
                 assumptions=["the inner stream delivers diffs applicable to the source", "the filter function is pure (same answer for the same item)"],
                 level_text="Coq theorem for every filter/partial mapping f, source and applicable diff: filter_on_diff does not panic, keeps filtered_indices/original_len exact and emits at most one diff taking filter_map f of the old source to that of the new (incl. Reset with nothing passing, after the fix), lifted to arbitrary diff sequences; stream end <=> source end. Tied to filter.rs by an exhaustive run over all pass/fail assignments of small sources plus random histories.",
                 level_note="Trusted: Coq kernel, extraction, harness; imbl::Vector as list; VecDeque::partition_point by its contract on partitioned input."),
+    "C11": dict(streams=c11_streams, trusted=ADAPT_TRUST + ["imbl::Vector::sort_by is an oracle: its answer is reconstructed from the implementation's output on every call, checked to be a sorted permutation of its input (ok:sortcontract) and fed to the model", "imbl::Vector::binary_search_by transcribed from imbl-5.0.0 vector/mod.rs:583-606"],
+                assumptions=["the comparison is a total preorder (cmp a b = CompOpp (cmp b a), transitivity)", "imbl sort_by returns a sorted permutation (checked at run time on every call)",
+                             "known finding sort_truncate_misaligned excluded"],
+                strength="full outside the known-finding class sort_truncate_misaligned",
+                level_text="Coq theorem for every total-preorder comparison, source, applicable diff and valid oracle answer: the sort adapter does not panic (all expect()s and len-1 are safe), its emitted diffs are applicable one by one and take the old sorted view to the new one, and the buffer invariant (indices a permutation, values linked to the source, sorted) is preserved, hence the view is a sorted permutation of the source at every quiescent point of every admissible history; Truncate is proved outside the recorded class and refuted inside it. Tied to sort.rs by an exhaustive run over all tie patterns of small sources and random histories, with the unstable sort's answers taken from the implementation.",
+                level_note="Trusted: Coq kernel, extraction, harness, imbl::Vector as list, imbl sort_by as an oracle with run-time-checked contract. Known finding F6 (Truncate forwarded to the sorted view, pinned by existing tests) is excluded and reported as KNOWN-FINDING."),
     "C15": dict(streams=c15_streams, trusted=ADAPT_TRUST,
                 assumptions=["the inner stream delivers diffs applicable to the source"],
                 level_text="Coq theorems: for every limit, buffer and applicable diff the diffs emitted by Head and Tail, applied one at a time, never produce an intermediate view longer than the limit (apply_all_ok_bound), and the initial values respect it. Tied to head.rs/tail.rs by the C09 correspondence restricted to fixed limits, with the view length checked after every single diff on the implementation.",
